@@ -115,8 +115,12 @@ class LayerMerger(LayerMerger):
                     result.paste(img, (0, 0))
             else:
                 if opacity is not None and opacity < 1.0:
-                    img = img.convert(result.mode)
-                    result = Image.blend(result, img, layer_image_opts.opacity)
+                    blended = Image.blend(result, img.convert(result.mode), layer_image_opts.opacity)
+                    if img.mode == 'RGBA':
+                        # blend only where the layer is not transparent
+                        result.paste(blended, (0, 0), img.split()[3])
+                    else:
+                        result = blended
                 elif img.mode in ('RGBA', 'P'):
                     # assume paletted images have transparency
                     if img.mode == 'P':
